@@ -18,7 +18,7 @@ RULE = ("two focus alphabets (short-form disambiguation: 10 kinds; id./placehold
         "documents; also: no non-full citation grouped under a resource whose first full member occurs later; "
         "non-trivial = (list, cut) pair with a non-empty prefix; distinct = distinct kind sequence / document")
 ASSUMPTIONS = ["exhaustive for the stated alphabet and bound only"]
-FLOORS = {"quick": {"sequences": R.n_sequences(3), "focus_sequences": R.n_focus_sequences(3), "prefix_pairs": 20000, "extracted_lists": 400, "long_lists": 10},
+FLOORS = {"quick": {"sequences": R.n_sequences(3), "focus_sequences": R.n_focus_sequences(3), "prefix_pairs": 20000, "extracted_lists": 400, "long_lists": 10, "battery_rechecked": 10000},
           "thorough": {"sequences": R.n_sequences(5), "focus_sequences": R.n_focus_sequences(5), "prefix_pairs": 15000000, "extracted_lists": 20000}}
 
 
@@ -54,6 +54,21 @@ def run_shard(spec, rec):
     from eyecite import get_citations, resolve_citations
 
     protos = protos_all()
+    # history: a battery of short sequences resolved FIRST in this process and again at the very end; the
+    # whole list is its own longest prefix, so its resolution may not depend on what was resolved before
+    import itertools
+    battery = [c for n in (1, 2) for c in itertools.product(list(protos), repeat=n)]
+    battery += [c for c in itertools.product(R.FOCUS["reference"], repeat=3)][spec["i"]::spec["nshards"]]
+    battery += [c for c in itertools.product(R.FOCUS["antecedent"], repeat=3)][spec["i"]::spec["nshards"]]
+
+    def shape(combo):
+        seq = R.instantiate(protos, combo)
+        pos = {id(c): i for i, c in enumerate(seq)}
+        try:
+            return [g[1] for g in R.canon(resolve_citations(seq), pos)]
+        except Exception as e:
+            return "raised " + type(e).__name__
+    first_shapes = {combo: shape(combo) for combo in battery}
     for combo in R.sequences(spec["lmax"], spec["i"], spec["nshards"]):
         check_seq(R.instantiate(protos, combo), dict(sequence=list(combo)), rec, resolve_citations)
         rec.count("sequences")
@@ -105,13 +120,43 @@ def run_shard(spec, rec):
             rec.nontrivial(text)
             if len(rec.samples) < 4 and len(cs) > 4:
                 rec.sample(dict(text=text, kinds=[M.kind(c) for c in cs]))
+    recheck_battery(battery, first_shapes, shape, rec)
+
+
+def recheck_battery(battery, first_shapes, shape, rec):
+    for combo in battery:
+        rec.count("battery_rechecked")
+        again = shape(combo)
+        if again != first_shapes[combo]:
+            rec.violation("C08.depends_on_history", dict(sequence=list(combo), history="battery first, then the whole shard"),
+                          observed=again, expected=first_shapes[combo])
 
 
 def replay(w, rec):
     from eyecite import get_citations, resolve_citations
     protos = protos_all()
     c = w["case"]
-    if "sequence" in c:
+    if "history" in c:
+        # the witness needs a history: resolve it first, then every sequence of length <= 3 over the two
+        # name-collision alphabets, then again
+        import itertools
+
+        def shape(combo):
+            seq = R.instantiate(protos, combo)
+            pos = {id(x): i for i, x in enumerate(seq)}
+            return [g[1] for g in R.canon(resolve_citations(seq), pos)]
+        first = shape(c["sequence"])
+        for kinds in (R.FOCUS["reference"], R.FOCUS["antecedent"]):
+            for n in (2, 3):
+                for combo in itertools.product(kinds, repeat=n):
+                    try:
+                        resolve_citations(R.instantiate(protos, combo))
+                    except Exception:
+                        pass
+        again = shape(c["sequence"])
+        if again != first:
+            rec.violation("C08.depends_on_history", c, observed=again, expected=first)
+    elif "sequence" in c:
         check_seq(R.instantiate(protos, c["sequence"]), c, rec, resolve_citations)
     else:
         check_seq(get_citations(c["text"])[:40], c, rec, resolve_citations)
